@@ -42,7 +42,13 @@ def case_to_coq(c):
         real = file_bytes(c["obs"]["files"][0])
         return None, "name_case %d (%s) %s" % (c["id"], MODEL[c["scheme"]](c.get("args") or []), C.cq_bytes(list(real)))
     fs = c["obs"].get("files") or []
-    return "file_set_case %d [%s]" % (c["id"], "; ".join("(%s, %s)" % (C.cq_str(f["name"]), cq_packed(file_bytes(f))) for f in fs)), None
+    old = c["obs"].get("old") or []
+    snaps = c["obs"].get("snaps") or []
+    if not old and not snaps:
+        return "file_set_case %d [%s]" % (c["id"], "; ".join("(%s, %s)" % (C.cq_str(f["name"]), cq_packed(file_bytes(f))) for f in fs)), None
+    return "snap_case %d [%s] %d%%nat [%s]" % (
+        c["id"], "; ".join("(%s, %s)" % (C.cq_str(f["name"]), cq_packed(file_bytes(f))) for f in fs + old), len(fs),
+        "; ".join("[%s]%%nat" % "; ".join(str(i) for i in (sn or [])) for sn in snaps)), None
 
 
 # ------------------------------------------------------------------ parsing what Coq printed
@@ -235,6 +241,7 @@ def slim(c):
     d = dict(c)
     o = dict(c["obs"])
     o["files"] = [{"name": f["name"], "size": len(file_bytes(f))} for f in (c["obs"].get("files") or [])]
+    o["old"] = [{"name": f["name"], "size": len(file_bytes(f))} for f in (c["obs"].get("old") or [])]
     d["obs"] = o
     return d
 
@@ -320,7 +327,8 @@ def judge(run, cases, rows, details, verbose=False):
         run.cov["traces_validated_against_impl"] += 1
         fam = run.cov.setdefault("by_family", {})
         fam["sets:" + ("plus" if c["flags"]["plus"] else "oss")] = fam.get("sets:" + ("plus" if c["flags"]["plus"] else "oss"), 0) + 1
-        run.cov["files_checked"] = run.cov.get("files_checked", 0) + len(o.get("files") or [])
+        run.cov["files_checked"] = run.cov.get("files_checked", 0) + len(o.get("files") or []) + len(o.get("old") or [])
+        run.cov["reload_snapshots_checked"] = run.cov.get("reload_snapshots_checked", 0) + len(o.get("snaps") or []) + 1
         run.cov["bytes_checked"] = run.cov.get("bytes_checked", 0) + sum(len(file_bytes(f)) for f in o.get("files") or [])
         for a in o.get("accepted") or []:
             k = a.split(":")[0]
@@ -344,6 +352,17 @@ def judge(run, cases, rows, details, verbose=False):
             run.failing(sig, [slim(c)], "generated file %s: %s problem at directive %r (case %d, class %s)" % (fname, problem, what, cid, c["class"]),
                         theorem="Lex.Check.arity_errors")
         for kind, scope, ident in du:
+            if kind.startswith("reload-"):
+                # defined twice in the file set of an EARLIER reload of the case, not in the end state
+                base = kind[len("reload-"):]
+                sch = dup_scheme(c, base, scope, ident)
+                run.cov["transient_duplicates"] = run.cov.get("transient_duplicates", 0) + 1
+                if sch.startswith("unexplained:"):
+                    run.failing({"kind": "duplicate-at-reload", "ident": base}, [slim(c)],
+                                "identifier defined twice in the file set NGINX loads at a reload inside the history (not in the end state): %s %r in scope %s (case %d, class %s)"
+                                % (base, ident, scope, cid, c["class"]), theorem="Lex.Check.dup_idents on every reload snapshot")
+                    continue
+                kind = base
             sch = dup_scheme(c, kind, scope, ident)
             run.failing({"kind": "duplicate", "ident": kind, "scheme": sch}, [slim(c)],
                         "identifier defined twice across the generated files: %s %r in scope %s (case %d, class %s, scheme %s)" % (kind, ident, scope, cid, c["class"], sch),
